@@ -58,6 +58,27 @@ func genC13(e *emitter, r *rng, thorough bool) {
 		}
 		e.emit("enc.rand", "b58.enc "+hx(b))
 	}
+	// long strings, many in a row (state kept between calls — power tables, scratch buffers — shows on the later ones),
+	// lengths around powers of two and every length 120..140
+	for rep := 0; rep < 3; rep++ {
+		for _, l := range []int{127, 128, 129, 130, 200, 255, 256, 257, 400, 511, 512, 513, 1000} {
+			s := randB58(r, l)
+			e.emit("dec.long", "b58.dec "+hx(s))
+			e.emit("cdec.long", "b58.cdec "+hx(s))
+		}
+	}
+	for l := 120; l <= 140; l++ {
+		e.emit("dec.long", "b58.dec "+hx(randB58(r, l)))
+		e.emit("enc.long", "b58.enc "+hx(r.bytes(l)))
+	}
+	for _, l := range []int{6, 7, 8, 9, 15, 16, 17, 31, 32, 33, 63, 64, 65} { // word-size boundaries, top bit set and clear
+		for _, top := range []byte{0x00, 0x01, 0x7f, 0x80, 0xff} {
+			b := r.bytes(l)
+			b[0] = top
+			e.emit("enc.wordsize", "b58.enc "+hx(b))
+			e.emit("cenc.wordsize", fmt.Sprintf("b58.cenc %s %d", hx(b[1:]), top))
+		}
+	}
 	// decode: all strings over the alphabet of length <= 2, strings with leading '1's
 	e.emit("dec.exh0", "b58.dec -")
 	for a := 0; a < 256; a++ {
